@@ -135,7 +135,7 @@ def err_kind(e):
         return "dimNotSquare"
     if "dim of from_basis must equal" in m:
         return "dimMismatch"
-    if "length of from_basis must equal" in m:
+    if "length of from_basis must equal" in m or "length of tuple must equal" in m:
         return "lenMismatch"
     if "cannot reshape" in m:
         return "reshape"
@@ -289,6 +289,7 @@ def correspondence(ctx):
         pend.finish()
     for name in (QUICK_MULTI if ctx.quick else []):
         corr_multi(ctx, cfg_of(name), ctx.npgen(f"corr-multi-{name}"))
+    corr_povm_tensor(ctx, ctx.npgen("corr-povm-tensor"))
     corr_errors(ctx)
 
 
@@ -319,6 +320,10 @@ def corr_state_povm(ctx, pend, cfg, g, eps):
                  f"{cfg.name}/to_vec_from_density_matrix_with_sparsity/{lab}")
         pend.add("vecOfDensity", hd + [cl(m), eps], lambda m=m: P.to_vec_from_matrix_with_sparsity(c, m), "r",
                  f"{cfg.name}/to_vec_from_matrix_with_sparsity/{lab}")
+        if lab in ("physical", "hermitian"):   # same values, other memory layouts
+            for lay, y in layouts(m):
+                pend.add("vecOfDensity", hd + [cl(m), eps], lambda y=y: S.to_vec_from_density_matrix_with_sparsity(c, y), "r",
+                         f"{cfg.name}/to_vec_from_density_matrix_with_sparsity/{lab}/{lay}")
         pend.add("vecOfDensity", hd + [cl(m), eps], lambda m=m: S.to_var_from_density_matrix(c, m, on_para_eq_constraint=False), "r",
                  f"{cfg.name}/to_var_from_density_matrix/{lab}")
         pend.add("vecOfDensity", hd + [cl(m), eps], lambda m=m: S.to_var_from_density_matrix(c, m), "r",
@@ -408,6 +413,12 @@ def corr_gate(ctx, pend, cfg, g, eps):
         pend.add("hsOfChoiDict", hd + [cl(ch), eps], lambda ch=ch: G.to_hs_from_choi_with_dict(c, ch), "r", f"{cfg.name}/to_hs_from_choi_with_dict/{lab}")
         pend.add("hsOfChoiSparse", hd + [cl(ch), eps], lambda ch=ch: G.to_hs_from_choi_with_sparsity(c, ch), "r",
                  f"{cfg.name}/to_hs_from_choi_with_sparsity/{lab}")
+        if lab in ("physical", "hermitian"):   # same values, other memory layouts
+            for lay, y in layouts(ch):
+                pend.add("hsOfChoiSparse", hd + [cl(ch), eps], lambda y=y: G.to_hs_from_choi_with_sparsity(c, y), "r",
+                         f"{cfg.name}/to_hs_from_choi_with_sparsity/{lab}/{lay}")
+                pend.add("hsOfChoiDict", hd + [cl(ch), eps], lambda y=y: G.to_hs_from_choi_with_dict(c, y), "r",
+                         f"{cfg.name}/to_hs_from_choi_with_dict/{lab}/{lay}")
         if k % 7 == 0:
             def cyc2(ch=ch):
                 fresh.delete_dict_from_choi_to_hs(); fresh.delete_basisconjugate_basis_sparse()
@@ -1103,7 +1114,146 @@ def corr_multi(ctx, cfg, g):
     pend.finish()
 
 
-CHECKS = {"compform": chk_compform, "state": chk_state, "density": chk_density, "povm": chk_povm, "gate": chk_gate, "choi": chk_choi, "kraus": chk_kraus,
+def build_tensor_povm(factors, names):
+    """tensor product of 1-qubit POVMs (factor k given by its real coefficient vectors in the normalised Pauli basis, placed
+    on the elemental system named names[k]); returns the product POVM and the factor matrices"""
+    from quara.objects.operators import tensor_product
+    cs = [qobj.csys("qubit", names=(int(nm),)) for nm in names]
+    ps = [Povm(c, [np.asarray(v, dtype=np.float64).copy() for v in vs], is_physicality_required=False) for c, vs in zip(cs, factors)]
+    mats = [[qobj.mat_of(c, np.asarray(v, dtype=np.float64)) for v in vs] for c, vs in zip(cs, factors)]
+    tp = ps[0]
+    for pv in ps[1:]:
+        tp = tensor_product(tp, pv)
+    return tp, mats
+
+
+def rand_factors(g, counts):
+    c1 = qobj.csys("qubit")
+    return [[qobj.vec_of(c1, e) for e in qobj.rand_povm_mats(g, 2, m)] for m in counts]
+
+
+def chk_povm_tensor(factors, names):
+    """tensor-product POVM with (possibly different) local outcome counts: tuple access = M_i ⊗ N_j ⊗ … (systems in name
+    order), tuple access = serial access at the row-major serial index, for matrix / matrix_with_sparsity / vec"""
+    tp, mats = call("C02/tensor_product(Povm)", lambda: build_tensor_povm(factors, names))
+    order = [int(k) for k in np.argsort(names)]
+    lens = [len(factors[k]) for k in order]
+    tag = "x".join(str(l) for l in lens)
+    if list(tp.nums_local_outcomes) != lens:
+        raise Fail("C02/Povm.nums_local_outcomes/tensor", f"nums_local_outcomes {tp.nums_local_outcomes} != {lens}")
+    ms = call("C02/Povm.matrices", tp.matrices)
+
+    def per_index(t):
+        ref = np.eye(1)
+        for pos, k in enumerate(order):
+            ref = np.kron(ref, mats[k][t[pos]])
+        ser = int(np.ravel_multi_index(t, lens))
+        need(dev(call("C02/Povm.matrix(tuple)", lambda: tp.matrix(tuple(t))), ref), f"C02/Povm.matrix(tuple)/tensor/formula",
+             f"outcomes {tag}: matrix({tuple(t)}) != ⊗ of the factor elements")
+        need(dev(call("C02/Povm.matrix_with_sparsity(tuple)", lambda: tp.matrix_with_sparsity(tuple(t))), ref),
+             "C02/Povm.matrix_with_sparsity(tuple)/tensor/formula", f"outcomes {tag}: matrix_with_sparsity({tuple(t)}) != ⊗ of the factor elements")
+        need(dev(call("C02/Povm.vec(tuple)", lambda: tp.vec(tuple(t))), tp.vecs[ser]), "C02/Povm.vec(tuple)/tensor/serial",
+             f"outcomes {tag}: vec({tuple(t)}) != vecs[{ser}] (row-major serial index)")
+        need(dev(tp.matrix(ser), ref), "C02/Povm.matrix(serial)/tensor/formula", f"outcomes {tag}: matrix({ser}) != ⊗ of the factor elements")
+        need(dev(ms[ser], ref), "C02/Povm.matrices/tensor/formula", f"outcomes {tag}: matrices()[{ser}] != ⊗ of the factor elements")
+
+    def bad_len():
+        try:
+            tp.vec(tuple([0] * (len(lens) + 1)))
+        except ValueError:
+            return
+        except Exception as e:  # noqa
+            raise Fail(f"C02/Povm.vec(tuple)/len/raises-{type(e).__name__}", str(e)[:100])
+        raise Fail("C02/Povm.vec(tuple)/len/accepted", "a tuple with one index too many is accepted")
+
+    sections(*([lambda t=t: per_index(t) for t in itertools.product(*[range(l) for l in lens])] + [bad_len]))
+
+
+def corr_povm_tensor(ctx, g):
+    """Povm.matrix(tuple) / matrix_with_sparsity(tuple) of 2-factor tensor-product POVMs with different outcome counts"""
+    pend = Pend(ctx)
+    for counts, names in (((2, 3), (0, 1)), ((3, 2), (0, 1)), ((2, 3), (1, 0)), ((2, 2), (0, 1))):
+        factors = rand_factors(g, counts)
+        tp, _ = build_tensor_povm(factors, names)
+        c = tp.composite_system
+        B = qobj.basis_mats(c)
+        d, n = c.dim, len(B)
+        Bq = cl(np.array(B))
+        lens = list(tp.nums_local_outcomes)
+        m = len(tp.vecs)
+        flat = cl(np.array(tp.vecs))
+        idxs = list(itertools.product(*[range(l) for l in lens])) + [tuple(lens[:-1]) + (0,), (0,) * (len(lens) + 1), (0,) * (len(lens) - 1)]
+        lab = f"tensor{counts}names{names}"
+        for t in idxs:
+            pend.add("povmMatrixMd", [d, n, Bq, m, flat, ",".join(map(str, lens)), ",".join(map(str, t)) if t else "-", "0"],
+                     lambda tp=tp, t=t: tp.matrix(tuple(t)), "c", f"{lab}/Povm.matrix({t})")
+            pend.add("povmMatrixMd", [d, n, Bq, m, flat, ",".join(map(str, lens)), ",".join(map(str, t)) if t else "-", "1"],
+                     lambda tp=tp, t=t: tp.matrix_with_sparsity(tuple(t)), "c", f"{lab}/Povm.matrix_with_sparsity({t})")
+    pend.finish()
+
+
+def layouts(x):
+    """the same values in other memory layouts: Fortran order, a transposed view (as `y.conj().T` / LAPACK output), a strided view"""
+    x = np.asarray(x)
+    big = np.zeros((2 * x.shape[0], 2 * x.shape[1]), dtype=x.dtype)
+    big[::2, ::2] = x
+    tv = np.ascontiguousarray(x.T).T
+    return [("fortran", np.asfortranarray(x)), ("transposed-view", tv), ("strided", big[::2, ::2])]
+
+
+def chk_layout(cfg, seed):
+    """every conversion that takes a matrix argument gives the same result (and the defining formula) whatever the memory layout"""
+    c, d, n = cfg.c, cfg.d, cfg.n
+    g = np.random.default_rng(seed)
+    rho = rand_herm(g, d)
+    choi = rand_herm(g, d * d)
+    hs = g.standard_normal((n, n))
+    ks = [rand_c(g, (d, d)) for _ in range(2)]
+    povm_ms = [rand_herm(g, d) for _ in range(3)]
+    vref = np.array([np.trace(b.conj().T @ rho) for b in cfg.B])
+    jobs = [
+        ("state.to_vec_from_density_matrix_with_sparsity", rho, lambda x: S.to_vec_from_density_matrix_with_sparsity(c, x), vref),
+        ("povm.to_vec_from_matrix_with_sparsity", rho, lambda x: P.to_vec_from_matrix_with_sparsity(c, x), vref),
+        ("state.to_var_from_density_matrix", rho, lambda x: S.to_var_from_density_matrix(c, x, on_para_eq_constraint=False), vref),
+        ("gate.to_hs_from_choi[loop]", choi, lambda x: G.to_hs_from_choi(c, x), hs_from_choi_ref(cfg, choi)),
+        ("gate.to_hs_from_choi[dict]", choi, lambda x: G.to_hs_from_choi_with_dict(c, x), hs_from_choi_ref(cfg, choi)),
+        ("gate.to_hs_from_choi[sparse]", choi, lambda x: G.to_hs_from_choi_with_sparsity(c, x), hs_from_choi_ref(cfg, choi)),
+        ("gate.to_var_from_choi", choi, lambda x: G.to_var_from_choi(c, x, on_para_eq_constraint=False), hs_from_choi_ref(cfg, choi).flatten()),
+        ("gate.to_choi_from_hs[loop]", hs, lambda x: G.to_choi_from_hs(c, x), choi_ref(cfg, hs)),
+        ("gate.to_choi_from_hs[dict]", hs, lambda x: G.to_choi_from_hs_with_dict(c, x), choi_ref(cfg, hs)),
+        ("gate.to_choi_from_hs[sparse]", hs, lambda x: G.to_choi_from_hs_with_sparsity(c, x), choi_ref(cfg, hs)),
+        ("gate.to_process_matrix_from_hs", hs, lambda x: G.to_process_matrix_from_hs(c, x), choi_ref(cfg, hs)),
+        ("gate.convert_hs(->comp)", hs, lambda x: G.convert_hs(x, c.basis(), c.comp_basis()), None),
+        ("Gate(hs).to_choi_matrix_with_sparsity", hs, lambda x: Gate(c, x, is_physicality_required=False).to_choi_matrix_with_sparsity(), choi_ref(cfg, hs)),
+        ("Gate(hs).convert_to_comp_basis", hs, lambda x: Gate(c, x, is_physicality_required=False).convert_to_comp_basis(), None),
+    ]
+
+    def one(nm, x, f, ref):
+        base = call(f"C02/{nm}", lambda: f(np.ascontiguousarray(x)))
+        if ref is not None:
+            need(dev(base, ref), f"C02/{nm}/formula", "C-contiguous input: result != defining formula")
+        for lay, y in layouts(x):
+            r = call(f"C02/{nm}/layout({lay})", lambda: f(y))
+            need(dev(r, base), f"C02/{nm}/layout({lay})", f"{lay} input gives a different result than the C-contiguous copy of the same values")
+
+    def lists():
+        refs = hs_of_kraus_ref(cfg, ks)
+        for lay in ("fortran", "transposed-view", "strided"):
+            kl = [dict(layouts(k))[lay] for k in ks]
+            need(dev(call("C02/gate.to_hs_from_kraus_matrices", lambda: G.to_hs_from_kraus_matrices(c, kl)), call("C02/x", lambda: G.to_hs_from_kraus_matrices(c, ks))),
+                 f"C02/gate.to_hs_from_kraus_matrices/layout({lay})", f"{lay} Kraus operators give a different HS matrix")
+            ml = [dict(layouts(m_))[lay] for m_ in povm_ms]
+            pref = np.array([[np.trace(b.conj().T @ m_) for b in cfg.B] for m_ in povm_ms])
+            need(dev(np.array(call("C02/to_vecs_from_matrices_with_sparsity", lambda: P.to_vecs_from_matrices_with_sparsity(c, ml))), pref),
+                 f"C02/povm.to_vecs_from_matrices_with_sparsity/layout({lay})", f"{lay} matrices: vecs != tr(B_a^† M_x)")
+            need(dev(call("C02/to_var_from_matrices", lambda: P.to_var_from_matrices(c, ml, on_para_eq_constraint=False)), pref.flatten()),
+                 f"C02/povm.to_var_from_matrices/layout({lay})", f"{lay} matrices: var != stacked tr(B_a^† M_x)")
+        del refs
+
+    sections(*([lambda j=j: one(*j) for j in jobs] + [lists]))
+
+
+CHECKS = {"compform": chk_compform, "layout": chk_layout, "state": chk_state, "density": chk_density, "povm": chk_povm, "gate": chk_gate, "choi": chk_choi, "kraus": chk_kraus,
           "notcp": chk_not_cp, "linear": chk_linear, "mprocess": chk_mprocess}
 
 
@@ -1221,6 +1371,33 @@ def oracle(ctx, volume=1):
             run_check(ctx, "compform", cfg, (hss,), {"check": "compform", "cfg": name, "case": lab, "hss": enc(np.array(hss))})
 
 
+    # tensor-product POVMs with pairwise different local outcome counts, tuple-index access on every multi-index
+    g = ctx.npgen(f"oracle-povm-tensor-{volume}")
+    combos = [((2, 3), (0, 1)), ((3, 2), (0, 1)), ((2, 3), (1, 0)), ((2, 3, 4), (0, 1, 2)), ((4, 2, 3), (2, 0, 1))]
+    if not ctx.quick:
+        combos += [((3, 4), (0, 1)), ((2, 3, 4), (1, 2, 0)), ((3, 2, 2), (0, 1, 2))]
+    for counts, nms in combos:
+        factors = rand_factors(g, counts)
+        ctx.case(("o-povm-tensor", counts, nms, float(factors[0][0][1])), sample={"op": "povm-tensor", "counts": counts, "names": nms})
+        ctx.count("oracle povm-tensor")
+        rep = {"check": "povm_tensor", "cfg": "-", "names": list(nms), "factors": [enc(np.array(f)) for f in factors]}
+        try:
+            chk_povm_tensor(factors, nms)
+        except Fail as f:
+            ctx.violate(f.sig, f"[tensor povm {counts} on {nms}] {f.what}", rep)
+        except FailList as fl:
+            for f in fl.fails:
+                ctx.violate(f.sig, f"[tensor povm {counts} on {nms}] {f.what}", rep)
+    # memory layouts of matrix arguments
+    for name in (QUICK_CFGS if ctx.quick else THOROUGH_CFGS[:6]):
+        cfg = cfg_of(name)
+        g = ctx.npgen(f"oracle-layout-{name}-{volume}")
+        for _ in range(2 * volume):
+            seed = int(g.integers(0, 2 ** 31))
+            ctx.case(("o-layout", name, seed))
+            run_check(ctx, "layout", cfg, (seed,), {"check": "layout", "cfg": name, "seed": seed})
+
+
 def search(ctx):
     oracle(ctx, volume=3)
 
@@ -1228,9 +1405,17 @@ def search(ctx):
 def replay(ctx, data):
     r = data["replay"]
     print("replaying", {k: (v if not isinstance(v, dict) else "<array>") for k, v in r.items()})
-    cfg = cfg_of(r["cfg"])
     kind = r["check"]
+    cfg = cfg_of(r["cfg"]) if kind != "povm_tensor" else None
     try:
+        if kind == "povm_tensor":
+            chk_povm_tensor([list(dec(f).real) for f in r["factors"]], tuple(r["names"]))
+            print("property holds on this input now")
+            return 0
+        if kind == "layout":
+            chk_layout(cfg, r["seed"])
+            print("property holds on this input now")
+            return 0
         if kind == "state":
             v = dec(r["v"]); chk_state(cfg, real_if(v))
         elif kind == "density":
